@@ -27,6 +27,20 @@ CHECKS = {
          'Every offence of an enumerated catalogue (structural messages of core and modules with absent fields / boundary scalars, byte-level frames, broken WebSocket framing, bursts) is placed at each life phase against a child process with witnesses in the same and another session.', '4 C08'),
  'C09': ('exploration', 'sanitizer: Go race detector over repeated storms of 2-16 unsynchronised clients (free-running and jittered at injected scheduling points) + wedge / runtime-fatal / never-completed oracles',
          'A -race build of the lab SUT with the production decorators and all modules is driven by repeated concurrent storms; any race report with a hagall frame, runtime fatal, request that never completes or goroutine left parked in hagall code is a violation.', '4 C09'),
+ 'C06': ('fault_enumeration', 'runtime monitoring: departure oracles (relays at remaining members, state handed to a later joiner, subscription ended) over the enumerated ways a connection can end x entity/attachment mixes, plus reference-model histories',
+         'Every cause of a departure (FIN, RST, half-close, undecodable frame, missing timestamp, text frame, handler error, idle timeout, switch to another / a new session) x mixes of persistent / non-persistent entities with component, action and asset attached x sole-subscriber or not.', '4 C06'),
+ 'C10': ('exploration', 'runtime monitoring: id ledger in the reference model; exhaustive New/Reuse sequences and porcupine linearizability check of concurrent histories on the real id generator (-race child); uniqueness oracles over concurrent allocation storms',
+         'Ids are opaque to the model, which demands freshness per session uuid over long histories with releases; the id source is enumerated exhaustively for all short sequences and checked for linearizability under concurrency; 16-connection allocation storms collect every issued id.', '4 C10'),
+ 'C11': ('exploration', 'runtime monitoring: order-based oracles over per-observer pose relay sequences (sequence number in px), frame barriers, gated frame ticks',
+         'Owners stream sequence-numbered updates at several frame durations with deletions and invalid updates interleaved; per observer and entity the relayed numbers must strictly increase, stop at the delete relay and end with the last one sent (also at a newcomer); a held frame tick makes coalescing exact.', '4 C11'),
+ 'C15': ('exploration', 'runtime monitoring: admission oracle with an independent HMAC/claims verifier over a token mutation catalogue x carriers, against the real middleware and the real binary behind a fake discovery service (unregistered, registered, rotated)',
+         'A valid token and each single mutation of it in every carrier and combination, with the server unregistered, registered and after secret rotation; admitted only if a carried token verifies independently, a single valid token is admitted, protected handlers entered iff admitted.', '4 C15'),
+ 'C18': ('exploration', 'runtime monitoring: scripted honest and misbehaving clients against the signed-latency exchange; independent signature recovery (pure-Go secp256k1 + Keccak-256) and data-consistency oracles',
+         'Iteration counts 0..60 and extremes, wallet strings, duplicate / unknown / replayed answers, restarts and delayed rounds; every completed response is checked for signature, binding, ping-id set, count and statistics (last >= the injected delay of the final round).', '4 C18'),
+ 'C19': ('fault_enumeration', 'runtime monitoring: forwarded-iff-valid oracle at a fake credit service with an independent validity check, per-submission answer oracle, service failure modes and a gated queue-full scenario',
+         'Harness-signed valid triples and every single-field corruption from 1-16 connections with the credit service ok / slow / 500 / down; forwards are compared byte for byte after all forwarding goroutines ended; queue-full is made deterministic by holding the verifier at an injected gate.', '4 C19'),
+ 'C20': ('exploration', 'runtime monitoring: invariant walkers over the real grid after every insertion (child process), primitives against math/big references, wire-level sharing/retention scenarios',
+         'Seeded insertion sequences with merges, cascades and growth in all directions; index completeness, whole-grid region query, vertical rays, bounds, plane count and row shape are evaluated after every insertion; samples must be visible to later joiners and survive departures.', '4 C20'),
  'C12': ('exploration', 'runtime monitoring: map reference model over component histories at the wire',
          'Component requests with ids that exist / never existed / no longer exist; answers, LIST contents, handed state and cascades are compared with a map model.', '4 C12'),
  'C13': ('exploration', 'runtime monitoring: subscription-entitlement oracle over recorded per-connection notification streams',
@@ -40,11 +54,13 @@ CHECKS = {
 }
 
 ENGINES = [
- {'name': 'E1 seq', 'path': 'internal/e1', 'serves_properties': ['C01','C02','C03','C04','C05','C07','C12','C13','C14','C16','C17'], 'kind_free_text': 'sequential histories on the lab SUT judged by the reference model (internal/model), the view fold and probes'},
+ {'name': 'E1 seq', 'path': 'internal/e1', 'serves_properties': ['C01','C02','C03','C04','C05','C06','C07','C10','C11','C12','C13','C14','C16','C17'], 'kind_free_text': 'sequential histories on the lab SUT judged by the reference model (internal/model), the view fold and probes'},
  {'name': 'E5 diff', 'path': 'internal/e1/diff.go', 'serves_properties': ['C03','C17'], 'kind_free_text': 'one recorded history, two runs (other sessions removed / flag set), normalised stream equality'},
- {'name': 'E2 gated', 'path': 'internal/e2', 'serves_properties': ['C07'], 'kind_free_text': 'gated interleavings at injected scheduling points (verifrt sched mode), order-free oracles at quiescence'},
+ {'name': 'E2 conc', 'path': 'internal/e2', 'serves_properties': ['C01','C02','C07','C10','C11'], 'kind_free_text': 'gated interleavings at injected scheduling points (verifrt sched mode), order-free oracles at quiescence'},
  {'name': 'E3 race', 'path': 'internal/e3', 'serves_properties': ['C09'], 'kind_free_text': 'client storms on -race builds, race-report extraction and deduplication'},
- {'name': 'E4 fault', 'path': 'internal/e4', 'serves_properties': ['C08'], 'kind_free_text': 'offence catalogue x life phase, bursts; liveness oracles'},
+ {'name': 'E4 fault', 'path': 'internal/e4', 'serves_properties': ['C06','C08'], 'kind_free_text': 'offence catalogue x life phase, bursts; liveness oracles'},
+ {'name': 'E6 in vivo', 'path': 'sut/e6grid, sut/e6ids', 'serves_properties': ['C10','C20'], 'kind_free_text': 'real objects (grid, id generator) driven in child processes that log the input in flight; invariant walkers, exact references, porcupine'},
+ {'name': 'E7 system', 'path': 'internal/fakes, internal/sut (StartReal)', 'serves_properties': ['C15','C19'], 'kind_free_text': 'real binary behind fake discovery / credit services'},
  {'name': 'overlay+verifrt', 'path': 'internal/instr, overlaysrc/verifrt', 'serves_properties': [], 'kind_free_text': 'go/ast source instrumenter writing a build overlay of the current /repo tree; scheduling-point runtime (jitter, gates)'},
  {'name': 'lab SUT', 'path': 'sut/labsut', 'serves_properties': [], 'kind_free_text': 'harness-owned main wiring the same packages as cmd/main.go; always a child process'},
 ]
